@@ -18,6 +18,10 @@ struct Case {
         int legacy = 0, null_first = 0;
         uint64_t seed = 1, len = 64, aad_len = 16;
         int tag_len = 16;
+        // mbmgr: job-manager level entry points of one family; block: multi-hash / murmur block and tail functions
+        std::string sym;        // "<algo>/<fam>" for mbmgr, symbol name for block
+        std::vector<uint32_t> jobs; // mbmgr: job lengths in blocks (submitted in order, then flushed)
+        uint32_t nblocks = 1;
         // scan
         std::string scan;
         uint32_t idx = 0, maxi = 0;
@@ -33,7 +37,12 @@ static J to_json(const Case &c)
         else if (c.kind == "cat")
                 j.set("entry", c.entry).set("legacy", c.legacy).set("null_first", c.null_first).set("seed", (unsigned long long) c.seed).set("len", (unsigned long long) c.len)
                         .set("aad_len", (unsigned long long) c.aad_len).set("tag_len", c.tag_len);
-        else j.set("scan", c.scan).set("seed", (unsigned long long) c.seed).set("idx", c.idx).set("maxi", c.maxi).set("mask", (unsigned long long) c.mask).set("trigger", (unsigned long long) c.trigger);
+        else if (c.kind == "mbmgr" || c.kind == "block") {
+                j.set("sym", c.sym).set("seed", (unsigned long long) c.seed).set("nblocks", c.nblocks);
+                J a = J::arr();
+                for (auto x : c.jobs) a.push(J(x));
+                j.set("jobs", a);
+        } else j.set("scan", c.scan).set("seed", (unsigned long long) c.seed).set("idx", c.idx).set("maxi", c.maxi).set("mask", (unsigned long long) c.mask).set("trigger", (unsigned long long) c.trigger);
         return j;
 }
 static Case from_json(const J &j)
@@ -48,6 +57,11 @@ static Case from_json(const J &j)
                 c.entry = j.at("entry").s;
                 c.legacy = j.num("legacy", 0); c.null_first = j.num("null_first", 0); c.seed = j.unum("seed", 1); c.len = j.unum("len", 64);
                 c.aad_len = j.unum("aad_len", 16); c.tag_len = j.num("tag_len", 16);
+        } else if (c.kind == "mbmgr" || c.kind == "block") {
+                c.sym = j.at("sym").s;
+                c.seed = j.unum("seed", 1);
+                c.nblocks = (uint32_t) j.unum("nblocks", 1);
+                for (auto &x : j.at("jobs").a) c.jobs.push_back((uint32_t) x.unum());
         } else {
                 c.scan = j.str("scan", "base");
                 c.seed = j.unum("seed", 1); c.idx = j.unum("idx", 0); c.maxi = j.unum("maxi", 0); c.mask = j.unum("mask", 0); c.trigger = j.unum("trigger", 0);
@@ -60,6 +74,9 @@ static std::vector<mh::Fam> g_mh;
 static aops::Ops g_O;
 static std::vector<ent::Entry> g_entries;
 static std::vector<std::pair<void **, void *>> g_bindings; // (<entry>_dispatched, <entry>_mbinit)
+struct MbMgr { int algo; std::string fam; void *init, *submit, *flush; std::string label() const { return std::string(isal::algo_desc[algo].name) + "/" + fam; } };
+static std::vector<MbMgr> g_mbmgr;
+static std::vector<std::string> g_blockfns;
 
 // ---- the ABI oracle, applied to every trampolined call
 static std::string g_abi_fail, g_abi_key, g_trace;
@@ -177,6 +194,72 @@ static bool run(const Case &c, pbt::Ctx &ctx)
                         return !ctx.fail("fault|" + call.entry, call.entry + ": fault: " + fi.where);
                 }
                 ctx.label("kind=cat/" + e->group + (nulled ? "/error-return" : ""));
+        } else if (c.kind == "mbmgr") {
+                const MbMgr *m = nullptr;
+                for (auto &x : g_mbmgr)
+                        if (x.label() == c.sym) m = &x;
+                if (!m) { ctx.label("absent-entry"); return true; }
+                const isal::AlgoDesc &D = isal::algo_desc[m->algo];
+                guard::Arena A;
+                uint8_t *mgr = A.alloc("mgr", D.mgr_size, 64, guard::END, 0x5a);
+                std::vector<uint8_t *> jobs;
+                g_exit_class = "jobs=" + std::to_string(c.jobs.size());
+                bool okc = guard::guarded_call(fi, [&] {
+                        uint64_t a0[1] = { (uint64_t) mgr };
+                        tramp_invoke(m->init, a0, 1);
+                        for (size_t i = 0; i < c.jobs.size(); i++) {
+                                uint8_t *job = A.alloc("job", D.ctx_size, 64, guard::END, 0);
+                                memset(job, 0, D.ctx_size); // (the SHA-512 job length field is 64 bits wide)
+                                uint32_t nb = c.jobs[i] ? c.jobs[i] : 1;
+                                uint8_t *buf = A.alloc("job-buffer", (size_t) nb * D.block, 1, guard::END);
+                                pbt::expand(c.seed + i, buf, (size_t) nb * D.block);
+                                *(uint8_t **) (job + D.off_job_buffer) = buf;
+                                *(uint32_t *) (job + D.off_job_len) = nb;
+                                jobs.push_back(job);
+                                uint64_t a2[2] = { (uint64_t) mgr, (uint64_t) job };
+                                tramp_invoke(m->submit, a2, 2);
+                        }
+                        for (size_t i = 0; i <= c.jobs.size(); i++) {
+                                uint64_t a1[1] = { (uint64_t) mgr };
+                                if (!tramp_invoke(m->flush, a1, 1)) break;
+                        }
+                });
+                if (!okc) {
+                        A.describe(fi);
+                        return !ctx.fail("fault|mbmgr|" + c.sym, "mb_mgr " + c.sym + ": fault: " + fi.where);
+                }
+                ctx.label("kind=mbmgr/" + c.sym);
+        } else if (c.kind == "block") {
+                void *fn = isal::sym(c.sym);
+                if (!fn) { ctx.label("absent-entry"); return true; }
+                guard::Arena A;
+                uint32_t nb = c.nblocks ? c.nblocks : 1;
+                uint8_t *in = A.alloc("input", (size_t) nb * 1024 + 2048, 1, guard::END);
+                pbt::expand(c.seed, in, (size_t) nb * 1024 + 2048);
+                uint8_t *dig = A.alloc("segment-digests", 4 * 8 * 16, 64, guard::END, 0x21);
+                uint8_t *frame = A.alloc("frame-buffer", 1024 + 64, 64, guard::END, 0x22);
+                uint8_t *out = A.alloc("out", 64, 16, guard::END, 0x23);
+                uint64_t args[6] = { 0 };
+                int na = 0;
+                uint32_t total = (uint32_t) (c.seed % 5000);
+                if (c.sym.find("_murmur3_x64_128_block_") != std::string::npos && c.sym.find("_mh_sha1_") == 0) {
+                        args[0] = (uint64_t) in; args[1] = (uint64_t) dig; args[2] = (uint64_t) frame; args[3] = (uint64_t) out; args[4] = nb; na = 5;
+                } else if (c.sym.find("_block_") != std::string::npos) {
+                        args[0] = (uint64_t) in; args[1] = (uint64_t) dig; args[2] = (uint64_t) frame; args[3] = nb; na = 4;
+                } else if (c.sym.find("_tail_") != std::string::npos) {
+                        args[0] = (uint64_t) in; args[1] = total; args[2] = (uint64_t) dig; args[3] = (uint64_t) frame; args[4] = (uint64_t) out; na = 5; // in: 2 KiB partial buffer
+                } else if (c.sym == "_murmur3_x64_128_block") {
+                        args[0] = (uint64_t) in; args[1] = nb * 4; args[2] = (uint64_t) out; na = 3;
+                } else if (c.sym == "_murmur3_x64_128_tail") {
+                        args[0] = (uint64_t) in; args[1] = total; args[2] = (uint64_t) out; na = 3;
+                } else { ctx.label("absent-entry"); return true; }
+                g_exit_class = "nblocks=" + std::to_string(nb > 3 ? 3 : nb) + ",total%1024=" + std::to_string(total % 1024 > 1015 ? 1 : 0);
+                bool okc = guard::guarded_call(fi, [&] { tramp_invoke(fn, args, na); });
+                if (!okc) {
+                        A.describe(fi);
+                        return !ctx.fail("fault|" + c.sym, c.sym + ": fault: " + fi.where);
+                }
+                ctx.label("kind=block");
         } else {
                 void *fn = isal::sym("_rolling_hash2_run_until_" + c.scan);
                 if (!fn || !isal::host_can_run(c.scan)) { ctx.label("absent-entry"); return true; }
@@ -226,6 +309,33 @@ int main(int argc, char **argv)
                                 if (mb) g_bindings.emplace_back((void **) isal_symtab[i].addr, mb);
                         }
                 }
+                for (int a = 0; a < isal::NALGO; a++) {
+                        std::string pre = std::string("_") + isal::algo_desc[a].name + "_mb_mgr_submit_";
+                        for (size_t i = 0; i < isal_symtab_n; i++) {
+                                std::string n = isal_symtab[i].name;
+                                if (n.compare(0, pre.size(), pre)) continue;
+                                std::string fam = n.substr(pre.size()), b = std::string("_") + isal::algo_desc[a].name + "_mb_mgr_";
+                                MbMgr m{ a, fam, nullptr, isal_symtab[i].addr, isal::sym(b + "flush_" + fam) };
+                                for (const std::string &f : { fam, std::string(fam == "avx" || fam == "sse_ni" ? "sse" : fam == "avx512_ni" ? "avx512" : fam) })
+                                        if (!m.init) m.init = isal::sym(b + "init_" + f);
+                                if (m.init && m.flush && isal::host_can_run(fam)) g_mbmgr.push_back(m);
+                        }
+                }
+                {
+                        void *i = isal::sym("_sha512_sb_mgr_init_sse4"), *su = isal::sym("_sha512_sb_mgr_submit_sse4"), *fl = isal::sym("_sha512_sb_mgr_flush_sse4");
+                        if (i && su && fl) g_mbmgr.push_back(MbMgr{ isal::SHA512, "sb_sse4", i, su, fl });
+                }
+                for (size_t i = 0; i < isal_symtab_n; i++) {
+                        std::string n = isal_symtab[i].name;
+                        if (!isal_symtab[i].is_func) continue;
+                        bool blk = (n.find("_mh_sha") == 0 && (n.find("_block_") != std::string::npos || n.find("_tail_") != std::string::npos)) || n == "_murmur3_x64_128_block" ||
+                                   n == "_murmur3_x64_128_tail";
+                        if (!blk) continue;
+                        std::string fam = n.substr(n.rfind('_') + 1);
+                        if (n[1] == 'm' && n.find("_mh_") == 0 && !isal::host_can_run(fam)) continue;
+                        g_blockfns.push_back(n);
+                }
+                ctx.notes.push_back("job-manager level families: " + std::to_string(g_mbmgr.size()) + ", block/tail level functions: " + std::to_string(g_blockfns.size()));
                 if (g_bindings.empty()) ctx.notes.push_back("hook symbols absent: the resolver path cannot be re-armed");
                 ctx.notes.push_back("dispatch pointers that can be re-armed: " + std::to_string(g_bindings.size()));
                 if (!tramp::host_has_avx512()) ctx.notes.push_back("host without AVX-512: vector registers are not loaded/captured by the trampoline");
@@ -235,7 +345,7 @@ int main(int argc, char **argv)
                 Case c;
                 c.seed = rng64(1, UINT64_MAX - 8);
                 c.rearm = !g_bindings.empty() && coin(1, 5);
-                switch (weighted({ 3, 2, 5, 4, 1 })) {
+                switch (weighted({ 3, 2, 5, 4, 1, 3, 2 })) {
                 case 0: {
                         c.kind = "hash";
                         he::GenOpts go;
@@ -265,6 +375,21 @@ int main(int argc, char **argv)
                         c.tag_len = pick<int>({ 16, 12, 8 });
                         break;
                 }
+                case 5: {
+                        c.kind = "mbmgr";
+                        const MbMgr &m = g_mbmgr[rng<size_t>(0, g_mbmgr.size() - 1)];
+                        c.sym = m.label();
+                        int lanes = isal::documented_lanes(m.algo, m.fam);
+                        if (lanes <= 0) lanes = 2;
+                        int k = rng<int>(0, 2 * lanes + 1);
+                        for (int i = 0; i < k; i++) c.jobs.push_back(rng<uint32_t>(1, 6));
+                        break;
+                }
+                case 6:
+                        c.kind = "block";
+                        c.sym = g_blockfns[rng<size_t>(0, g_blockfns.size() - 1)];
+                        c.nblocks = rng<uint32_t>(1, 5);
+                        break;
                 default:
                         c.kind = "scan";
                         c.scan = pick<std::string>({ "base", "00", "04" });
